@@ -102,4 +102,22 @@ PinOccTuples(w, u, mayTouch) ==
                 /\ t[j + 1] >= t[j] + Len(fs[j])
                 /\ (~mayTouch /\ w[t[j + 1]] \in Dirs) => t[j + 1] > t[j] + Len(fs[j])}
 PinContainsWord(w, u, mayTouch) == IF u = <<>> THEN TRUE ELSE IF w = <<>> THEN FALSE ELSE PinOccTuples(w, u, mayTouch) # {}
+
+\* ---- forms of the above that stay cheap on long words (used by the trace specs) -------------
+\* the direction words phi maps to w: only the first two letters are free (PinMtoSP keeps the rest)
+PinSPtoMFast(w) == {m \in {<<a, b>> \o SubSeq(w, 2, Len(w)) : a \in Dirs, b \in Dirs} : PinAlternates(m) /\ PinMtoSP(m) = w}
+\* the quadrant of every letter of w, tabulated once
+PinQuadrants(w) == [i \in DOMAIN w |-> PinLetterQuadrant(w, i)]
+\* PinOccTuples with the quadrants of w tabulated once (same definition otherwise)
+PinOccTuplesQ(w, u, mayTouch) ==
+    CHOOSE r \in {LET fs == PinFactors(u)
+                      k == Len(fs)
+                      occ(f, i) == /\ i + Len(f) - 1 <= Len(w) /\ quad[i] = f[1]
+                                   /\ SubSeq(w, i + 1, i + Len(f) - 1) = SubSeq(f, 2, Len(f))
+                  IN {t \in [1..k -> 1..Len(w)] :
+                        /\ \A j \in 1..k : occ(fs[j], t[j])
+                        /\ \A j \in 1..(k - 1) :
+                              /\ t[j + 1] >= t[j] + Len(fs[j])
+                              /\ (~mayTouch /\ w[t[j + 1]] \in Dirs) => t[j + 1] > t[j] + Len(fs[j])}
+                  : quad \in {PinQuadrants(w)}} : TRUE
 =============================================================================
